@@ -168,8 +168,8 @@ def world_check(new, old_affine, old_shape):
     """Every output voxel: value = value of a distinct input voxel (read off the data), same world
     position, non-spatial indices unchanged.  Returns (None | reason, S, J)."""
     out = np.asarray(new.dataobj)
-    if out.size == 0:
-        return 'empty result', None, None
+    if out.size == 0:       # no voxel to misplace (the slicer documents a refusal here: correspondence)
+        return None, None, None
     flat = out.ravel()
     size = int(np.prod(old_shape))
     if flat.min() < 0 or flat.max() >= size or len(np.unique(flat)) != flat.size:
@@ -235,7 +235,10 @@ def run(chk: Check):
                 'the others, some ints/None in spatial position, short tuples); (O) ornt2axcodes/axcodes2ornt for all 48, '
                 'ornt_transform for all 48x48 pairs, composition on random triples, inv_ornt_aff for 48 x shapes; (C) '
                 'io_orientation loop on R computed as the code does, as_closest_canonical once and twice on affines with '
-                'a dominant-axis margin, general (q,p) affines with dropped axes. Non-trivial: a non-identity orientation '
+                'a dominant-axis margin (integer, mildly oblique, strongly sheared with off-axis components up to 1.1 and '
+                'anisotropic voxels), each also under a SCALE SWEEP of the voxel sizes (uniform and per-axis anisotropic, '
+                's in {1e-6,1e-4,1e-3,1,1e3,1e6}): io_orientation must not change, canonical twice = once; general (q,p) '
+                'affines with dropped axes. Non-trivial: a non-identity orientation '
                 'or an index that is not the whole array, not refused; distinct by (op, shape, orientation/index, affine, class)')
     chk.assumptions = ['images are in-memory (dataobj is an ndarray) with data = arange(size): the value of a voxel names its '
                        'source voxel, so value equality is checked at every voxel of every result',
@@ -319,8 +322,15 @@ def run(chk: Check):
                 prop_fail(case, pred, exp[:300])
 
     # ============================================================== (S) slicer
+    img_cache = {}
+
     def slicer_case(tag, shape, ix, A, cls='n1', sample=False):
-        img, data = make_img(cls, shape, A)
+        ck = (cls, shape, A.tobytes())      # the slicer never modifies its image: reuse it
+        if ck not in img_cache:
+            if len(img_cache) > 400:
+                img_cache.clear()
+            img_cache[ck] = make_img(cls, shape, A)
+        img, data = img_cache[ck]
         ixs = ix2s(ix)
         case = {'op': 'slicer', 'cls': cls, 'shape': list(shape), 'ix': ixs, 'affine': mat2s(A)}
         pred = None
@@ -522,8 +532,15 @@ def run(chk: Check):
         rs, at = scaled(R)
         add(f'C{ci}.l', f'ioloop {at} {rs} {p}', 'ok ' + ornt2s(got), case)
         img, data = make_img('n1', shape, A, tuple(rng.sample([0, 1, 2], 3)))
-        c1 = as_closest_canonical(img)
-        c2 = as_closest_canonical(c1)
+        try:
+            c1 = as_closest_canonical(img)
+            c2 = as_closest_canonical(c1)
+        except Exception as e:
+            pred = f'as_closest_canonical raised {e!r} (io_orientation = {got.tolist()})'
+            preds[f'C{ci}.l'] = pred
+            chk.count(tag=tag)
+            prop_fail(case, pred)
+            return got, False
         pred = None
         if exact:
             d0 = img.header.get_dim_info()
@@ -752,8 +769,13 @@ def replay(chk, obj):
         from nibabel.orientations import aff2axcodes
         A = np.array(c['affine'])
         img, data = make_img('n1', tuple(c['shape']), A)
-        c1 = as_closest_canonical(img)
-        c2 = as_closest_canonical(c1)
+        try:
+            c1 = as_closest_canonical(img)
+            c2 = as_closest_canonical(c1)
+        except Exception as e:
+            print('as_closest_canonical raised', repr(e)[:200])
+            print('property fails on this case')
+            return 1
         bad = None
         if aff2axcodes(c1.affine) != ('R', 'A', 'S'):
             bad = f'axis codes {aff2axcodes(c1.affine)}'
@@ -762,6 +784,43 @@ def replay(chk, obj):
         elif is_int_mat(A):
             bad = reorient_predicate(img, data, c1, None, False) if c1 is not img else None
         print(bad or 'canonical image keeps every voxel; second canonicalisation is a no-op')
+        print('property fails on this case' if bad else 'property holds on this case')
+        return 1 if bad else 0
+    if isinstance(c, dict) and c.get('op') in ('ornt_transform', 'composition', 'axcodes', 'io_orientation'):
+        from nibabel import orientations as no
+
+        def po(t):
+            return np.array([[int(x) for x in r.split(':')] for r in t.split(',')])
+        bad = None
+        if c['op'] == 'ornt_transform':
+            a, b = po(c['start']), po(c['end'])
+            t = no.ornt_transform(a, b)
+            Aa = np.eye(4)
+            Aa[:3, :3] = 0
+            for r in range(3):
+                Aa[int(a[r, 0]), r] = a[r, 1] * (r + 2)
+            got = no.io_orientation(Aa @ no.inv_ornt_aff(t, (2, 3, 4)))
+            if np.array_equal(a, b) and not np.array_equal(t, [[0, 1], [1, 1], [2, 1]]):
+                bad = f'ornt_transform(o, o) = {t.tolist()}'
+            elif not np.array_equal(got, b):
+                bad = f'reorienting by ornt_transform(start, end) gives orientation {got.tolist()}, not end'
+        elif c['op'] == 'composition':
+            a, b, cc = po(c['a']), po(c['b']), po(c['c'])
+            d = np.arange(24).reshape(2, 3, 4)
+            if not np.array_equal(no.apply_orientation(no.apply_orientation(d, no.ornt_transform(a, b)), no.ornt_transform(b, cc)),
+                                  no.apply_orientation(d, no.ornt_transform(a, cc))):
+                bad = 'apply(apply(arr, T(a,b)), T(b,c)) != apply(arr, T(a,c))'
+        elif c['op'] == 'axcodes':
+            o = po(c['ornt'])
+            codes = no.ornt2axcodes(o.astype(float))
+            if not np.array_equal(no.axcodes2ornt(codes), o) or len(set(codes)) != 3:
+                bad = f'axis codes {codes} do not give the orientation back'
+        else:
+            got = no.io_orientation(np.array(c['affine']))
+            kept = [int(r[0]) for r in got if not np.isnan(r[0])]
+            if len(set(kept)) != len(kept):
+                bad = f'io_orientation rows {got.tolist()} reuse an output axis'
+        print(bad or 'consistent')
         print('property fails on this case' if bad else 'property holds on this case')
         return 1 if bad else 0
     if obj.get('inputs') and obj['inputs'].get('probe_fn'):
